@@ -190,6 +190,10 @@ class Controller:
         self.exited: set = set()
         self.inflight: set = set()
         self.lock = threading.Lock()
+        self.last_ev = _time.monotonic()
+        self.in_complete = 0
+        self.counting = False
+        self.forced = 0
         self.driver = None  # async driver for several executions in one loop (C17)
 
     # ----- choices
@@ -210,6 +214,7 @@ class Controller:
 
     # ----- events
     def ev(self, *e: Any) -> None:
+        self.last_ev = _time.monotonic()
         if e[0] != "pick":  # choosing a candidate again and again without anything else happening is a spin
             self.len_calls = 0
         self.trace.append(e)
@@ -240,6 +245,8 @@ class Controller:
         with self.lock:
             self.inflight.add(nid)
             self.ev("enter", nid, serial, where, label, args, dict(kwargs))
+            if self.driver is not None:
+                self.driver.tick_at[(nid, serial, "enter")] = self.driver.ticks
         if rec is not None:
             rec.entered.set()
             rec.gate.wait()
@@ -250,6 +257,8 @@ class Controller:
             self.inflight.discard(nid)
             self.exited.add(nid)
             self.ev("exit", nid, serial, outcome)
+            if self.driver is not None:
+                self.driver.tick_at[(nid, serial, "exit")] = self.driver.ticks
 
     # ----- pool
     def register_pool(self, pool: Any) -> None:
@@ -271,6 +280,14 @@ class Controller:
                 rec.entered.wait(0.0005)
 
     def complete(self, recs: List[TaskRec]) -> None:
+        self.in_complete += 1
+        try:
+            self._complete(recs)
+        finally:
+            self.in_complete -= 1
+            self.last_ev = _time.monotonic()
+
+    def _complete(self, recs: List[TaskRec]) -> None:
         for r in recs:  # one after the other: the order of the exit events is part of the trace
             r.gate.set()
             r.finished.wait()
@@ -556,6 +573,29 @@ def hooked_max(iterable, *, key=None, default=None):
 
 
 _installed = False
+NUDGE_AFTER_S = 1.5
+
+
+def _nudger() -> None:
+    """Safety net against code that blocks on a running node OUTSIDE the owned wait primitives (future.result(), a
+    private wait ...): the controller would never complete that node and the execution would sit until the watchdog.
+    When nothing has happened for NUDGE_AFTER_S while nodes are parked, the lowest parked node is completed as if it
+    had finished by itself ('forced' event). Never triggers on the unchanged scheduler, which reaches a hook within
+    microseconds."""
+    while True:
+        _time.sleep(0.1)
+        c = CTL
+        if c is None or not c.counting or c.in_complete:
+            continue
+        if _time.monotonic() - c.last_ev < NUDGE_AFTER_S:
+            continue
+        recs = sorted((r for r in c.recs if r.entered.is_set() and not r.finished.is_set() and not r.gate.is_set()),
+                      key=lambda r: (str(r.id), r.n))
+        if recs:
+            c.forced += 1
+            c.trace.append(("forced", recs[0].id))
+            c.last_ev = _time.monotonic()
+            recs[0].gate.set()
 
 
 def install() -> None:
@@ -563,6 +603,7 @@ def install() -> None:
     global _installed
     if _installed:
         return
+    threading.Thread(target=_nudger, daemon=True, name="twzmc-nudger").start()
     import tawazi  # noqa: F401
     import tawazi._dag.helpers as H
     from tawazi._dag.digraph import DiGraphEx
@@ -630,7 +671,7 @@ def disarm_watchdog() -> None:
 
 
 class ExecResult:
-    __slots__ = ("trace", "choices", "state_keys", "outcome", "value", "exc", "hook_hits", "late")
+    __slots__ = ("trace", "choices", "state_keys", "outcome", "value", "exc", "hook_hits", "late", "forced")
 
     def __init__(self):
         self.trace: List[tuple] = []
@@ -641,6 +682,7 @@ class ExecResult:
         self.exc: Optional[BaseException] = None
         self.hook_hits: dict = {}
         self.late = 0
+        self.forced = 0
 
 
 def run_controlled(op, *, prefix=(), is_async=False, batch_order=False, watchdog=10.0, early=False) -> ExecResult:
@@ -711,6 +753,7 @@ def run_controlled(op, *, prefix=(), is_async=False, batch_order=False, watchdog
     if c.pos < len(c.prefix):
         raise HarnessError(f"replay divergence: only {c.pos} of {len(c.prefix)} prefix choices were consumed")
     res.trace, res.choices, res.state_keys, res.hook_hits = c.trace, c.choices, c.state_keys, c.hook_hits
+    res.forced = c.forced
     return res
 
 
@@ -748,3 +791,67 @@ def lib_call(name: str, fn, a: tuple, k: dict):
         raise
     c.node_exit(nid, serial, "ok")
     return r
+
+
+# --------------------------------------------------------------------------- several executions in one loop (C17)
+
+
+class Driver:
+    """When several scheduler coroutines share one event loop, an asyncio-future wait parks its coroutine here; the
+    driver (a sibling coroutine) runs whenever every unfinished execution is parked and chooses which execution is
+    served next and which of its pending async-thread nodes complete."""
+
+    def __init__(self, c: Controller, nexec: int):
+        self.c = c
+        self.active = nexec
+        self.parked: List[tuple] = []
+        self.ticks = 0
+        self.tick_at: Dict[tuple, int] = {}
+        self.stop = False
+
+    async def park(self, c: Controller, recs: List[TaskRec], return_when: str, done_early: list) -> List[TaskRec]:
+        recs = sorted(recs, key=lambda r: (str(r.id), r.n, r.exec_key or 0))
+        already = [r for r in recs if r.finished.is_set()]
+        c.ev("wait", "a", return_when, _ids(recs), _ids(already) if already else (("<early>",) if done_early else ()))
+        if already or done_early:
+            c.complete(already)
+            return already
+        fut = _real_asyncio.get_running_loop().create_future()
+        self.parked.append((fut, recs, return_when))
+        return await fut
+
+    async def ticker(self) -> None:
+        while not self.stop:
+            self.ticks += 1
+            await _real_asyncio.sleep(0)
+
+    async def run(self) -> None:
+        c = self.c
+        while self.active > 0:
+            for _ in range(100000):
+                if self.active == 0 or len(self.parked) >= self.active:
+                    break
+                await _real_asyncio.sleep(0)
+            else:
+                raise HarnessError("driver: executions neither park nor finish")
+            if self.active == 0:
+                break
+            options = []
+            for pi, (fut, recs, rw) in enumerate(self.parked):
+                if rw == _cf.FIRST_COMPLETED:
+                    for sub in subsets(len(recs)):
+                        options.append((pi, sub))
+                else:
+                    options.append((pi, tuple(range(len(recs)))))
+            # the loop is free while async-thread nodes are in flight: siblings (the ticker) make progress
+            t0 = self.ticks
+            for _ in range(3):
+                await _real_asyncio.sleep(0)
+            c.ev("ticks", self.ticks - t0)
+            pi, sub = options[c.choose("drv", len(options))]
+            fut, recs, rw = self.parked.pop(pi)
+            chosen = [recs[j] for j in sub]
+            c.ev("serve", recs[0].exec_key if recs else None, _ids(chosen))
+            c.complete(chosen)
+            fut.set_result(chosen)
+            await _real_asyncio.sleep(0)
